@@ -11,6 +11,7 @@ from hypergraph.exceptions import ExecutionError
 from hypergraph.nodes.base import HyperNode
 from hypergraph.runners._shared.caching import (
     check_cache,
+    is_resuming_interrupt,
     restore_routing_decision,
     store_in_cache,
 )
@@ -101,9 +102,10 @@ async def run_superstep_async(
         input_versions = {param: state.get_version(param) for param in node.inputs}
         wait_for_versions = {name: state.get_version(name) for name in node.wait_for}
 
-        # Check cache before execution
+        # Check cache before execution (a caller-supplied interrupt response
+        # bypasses the cache: it is used as given and not stored)
         cache_key, cached_outputs = ("", None)
-        if cache is not None:
+        if cache is not None and not is_resuming_interrupt(node, state):
             cache_key, cached_outputs = check_cache(node, inputs, cache)
 
         if cached_outputs is not None:
